@@ -1,3 +1,640 @@
-//! C18 — not built yet.
-use crate::run::Run;
-pub fn run(_run: &Run) { eprintln!("C18: check not built yet"); std::process::exit(2); }
+//! C18 — references to missing or free objects read as null.
+//!
+//! Tier 1 (schema sweep): for every typed model of the C15 schema table and every declared entry, a valid container is
+//! generated (C15 generator, real `Storage`), exported together with everything it references into a real file written by
+//! `mkpdf`, and ONE reference to a dangling object number is planted: as the entry's value, as an element of an array-valued
+//! entry, or as a value of a name-keyed map entry. The number dangles in one of four ways: explicit free entry (optionally
+//! deleted by an incremental update), hole between two cross-reference subsections, == /Size, > /Size. The file is loaded in
+//! the four configurations and the container is read with its typed reader.
+//!   optional entry  : the read succeeds and the entry's written-back value equals that of a CONTROL document in which the
+//!                     entry (element, map entry) is simply not there  ("treated as absent");
+//!   required entry  : the read fails with an error whose chain names the entry; the control (valid value) reads fine;
+//!   never a panic.
+//! Tier 2 (`c18_level.rs`): the document-level reads the statement names (load, get_page, resources, fonts ...) on a rich
+//! document with the same plants in catalog / page / resources / font / image / outline / trailer entries.
+use super::c15_gen::*;
+use super::c15_schema::*;
+use super::c18_doc::{self as doc, Dangling, DANGLING};
+use super::c18_read::{read_target, LazyOut, ReadOut};
+use crate::doc::{error_fields, root_kind, Cfg, CFGS};
+use crate::mkpdf::{self, Obj};
+use crate::panicmon::guard;
+use crate::par::par_for;
+use crate::rng::{fnv, Rng};
+use crate::run::{hex, show, Run};
+use crate::tape::{shrink, Src};
+use crate::with_file;
+use pdf::error::PdfError;
+use pdf::object::PlainRef;
+use pdf::primitive::{Dictionary, Primitive};
+use serde_json::{json, Value};
+use std::collections::BTreeMap;
+use std::sync::Mutex;
+
+#[derive(Clone, Copy, Debug, PartialEq, Eq)]
+pub enum Variant { Field, Elem, MapVal }
+
+#[derive(Clone, Copy, Debug, PartialEq, Eq)]
+pub enum Class {
+    /// the reader resolves the reference while reading the container
+    Resolved,
+    /// the reader stores the reference without looking at it (`Ref<T>`, `Primitive`): nothing but "the read succeeds" can be judged
+    Deferred,
+    /// `Lazy<T>`: stored verbatim, resolved by `load()`
+    Lazy,
+}
+
+pub struct Target {
+    /// name used in witnesses / counters
+    pub name: &'static str,
+    /// reader name for `c18_read::read_target`
+    pub reader: &'static str,
+    /// generation kind of the container
+    pub k: K,
+    /// schema model whose fields are swept
+    pub model: &'static str,
+}
+
+pub fn targets() -> Vec<Target> {
+    let mut v = Vec::new();
+    let mut t = |name, reader, k, model| v.push(Target { name, reader, k, model });
+    for m in ["Catalog", "PageLabel", "Resources", "PatternDict", "GraphicsStateParameters", "InteractiveFormDictionary", "SeedValueDictionary",
+        "SignatureDictionary", "SignatureReferenceDictionary", "Annot", "FieldDictionary", "AppearanceStreams", "FileSpec", "Files", "EmbeddedFileParamDict",
+        "Outlines", "MarkInformation", "StructTreeRoot", "StructElem", "InfoDict", "LZWFlateParams", "DCTDecodeParams", "CCITTFaxDecodeParams",
+        "JBIG2DecodeParams", "TFont", "Type0Font", "CIDFont", "FontDescriptor"] {
+        t(m, m, K::M(m), m);
+    }
+    t("PageTree", "PageTree", K::MT("PageTree"), "PageTree");
+    t("PageTree@PagesNode", "PageTree@PagesNode", K::MT("PageTree"), "PageTree");
+    t("Page", "Page", K::MT("Page"), "Page");
+    t("Page@PagesNode", "Page@PagesNode", K::MT("Page"), "Page");
+    t("ImageDict", "Stream<ImageDict>", K::Stream("ImageDict", false), "ImageDict");
+    t("FormDict", "Stream<FormDict>", K::Stream("FormDict", false), "FormDict");
+    t("EmbeddedFile", "Stream<EmbeddedFile>", K::Stream("EmbeddedFile", false), "EmbeddedFile");
+    t("IccInfo", "Stream<IccInfo>", K::Stream("IccInfo", false), "IccInfo");
+    t("FontStream3", "Stream<FontStream3>", K::Stream("FontStream3", false), "FontStream3");
+    t("Font:Type1", "Font", K::FontSub("Type1"), "Font:Type1");
+    t("Font:TrueType", "Font", K::FontSub("TrueType"), "Font:TrueType");
+    t("Font:Type0", "Font", K::FontSub("Type0"), "Font:Type0");
+    t("Font:CIDFontType0", "Font", K::FontSub("CIDFontType0"), "Font:CIDFontType0");
+    t("Font:CIDFontType2", "Font", K::FontSub("CIDFontType2"), "Font:CIDFontType2");
+    v
+}
+
+/// array-valued entries whose Rust type is `Option<Vec<T>>` (all others are plain `Vec<T>`, read from null as empty)
+const OPTION_VEC: &[(&str, &str)] = &[("GraphicsStateParameters", "D"), ("ImageDict", "Decode"), ("InteractiveFormDictionary", "CO"),
+    ("SeedValueDictionary", "SubFilter"), ("TFont", "Widths"), ("Font:Type1", "Widths"), ("Font:TrueType", "Widths"), ("IccInfo", "Range")];
+
+/// Rust field names behind the PDF keys of required entries (pdf_derive reports the Rust field name in
+/// `FromPrimitive.field` and `MissingEntry.field`); the key itself is always accepted as well
+fn rust_names(key: &str) -> &'static [&'static str] {
+    match key {
+        "Pages" => &["pages"], "Count" => &["count"], "Parent" => &["parent"], "BBox" => &["bbox"], "XStep" => &["x_step"], "YStep" => &["y_step"],
+        "Resources" => &["resources"], "Width" => &["width"], "Height" => &["height"], "Filter" => &["filter"], "SubFilter" => &["sub_filter"],
+        "Contents" => &["contents"], "V" => &["v", "value"], "R" => &["r"], "Prop_Build" => &["prop_build"], "Prop_AuthTime" => &["prop_auth_time"],
+        "Prop_AuthType" => &["prop_auth_type"], "TransformMethod" => &["transform_method"], "Subtype" => &["subtype"], "N" => &["normal", "components"],
+        "S" => &["struct_type"], "P" => &["parent"], "Size" => &["size"], "Root" => &["root"], "CIDSystemInfo" => &["system_info"],
+        "FontDescriptor" => &["font_descriptor"], "FontName" => &["font_name"], "Flags" => &["flags"], "FontBBox" => &["font_bbox"],
+        "ItalicAngle" => &["italic_angle"], "BaseFont" => &["base_font", "name"],
+        _ => &[],
+    }
+}
+
+fn value_label(k: &K) -> (String, Class) {
+    use Class::*;
+    match k {
+        K::Int(..) | K::UInt(..) | K::Real | K::Bool | K::Name | K::NameEnum(..) | K::IntEnum(..) | K::Str | K::Date | K::Rect | K::Matrix => ("scalar".into(), Resolved),
+        K::Prim => ("Primitive".into(), Deferred),
+        K::Dict => ("Dictionary".into(), Resolved),
+        K::M(_) | K::MT(_) => ("model".into(), Resolved),
+        K::Ref(_, false) => ("Ref".into(), Deferred),
+        K::Ref(_, true) => ("RcRef".into(), Resolved),
+        K::MaybeRef(_) => ("MaybeRef".into(), Resolved),
+        K::Lazy(inner) => (format!("Lazy<{}>", value_label(inner).0), Lazy),
+        K::Many(inner, _) => (format!("Vec<{}>", value_label(inner).0), Resolved),
+        K::Map(inner) => (format!("HashMap<Name,{}>", value_label(inner).0), Resolved),
+        K::Pair(..) => ("tuple".into(), Resolved),
+        K::Stream(..) => ("Stream".into(), Resolved),
+        K::Dest => ("Dest".into(), Resolved),
+        K::MaybeNamedDest => ("MaybeNamedDest".into(), Resolved),
+        K::Action => ("Action".into(), Resolved),
+        K::Encoding | K::CMapEncoding => ("Encoding".into(), Resolved),
+        K::NumberTree(_) => ("NumberTree".into(), Resolved),
+        K::Font | K::FontSub(_) => ("Font".into(), Resolved),
+        K::CidToGid => ("CidToGidMap".into(), Resolved),
+        K::XObject => ("XObject".into(), Resolved),
+        K::Pattern => ("Pattern".into(), Resolved),
+        K::ColorSpace => ("ColorSpace".into(), Resolved),
+        K::Content => ("Content".into(), Resolved),
+        K::ApEntry => ("AppearanceStreamEntry".into(), Resolved),
+        K::PagesNode => ("PagesNode".into(), Resolved),
+    }
+}
+
+/// (root-cause family for the signature, detailed Rust container type for witness/evidence, class) of one planted position.
+/// The family names the reader that has to cope with the dangling reference; the element type only decides how the error
+/// is wrapped on its way there, and that wrapping is part of the signature as the error chain.
+fn container_of(model: &str, f: &Field, variant: Variant) -> (&'static str, String, Class) {
+    let font_own = model.starts_with("Font:") && matches!(f.key, "Encoding" | "ToUnicode" | "BaseFont");
+    let opt_vec = OPTION_VEC.contains(&(model, f.key));
+    match variant {
+        Variant::Field => {
+            let (l, c) = value_label(&f.k);
+            let (fam, l) = match (&f.req, &f.k) {
+                _ if font_own => ("Font-reader", if f.req == Req::Req { l } else { format!("Option<{}>", l) }),
+                (Req::Req, _) => ("derived-reader", l),
+                (Req::Def(_), _) => ("default", format!("default<{}>", l)),
+                (Req::Opt, K::Many(..)) if !opt_vec => ("Vec", l),
+                (Req::Opt, K::Map(..)) => ("HashMap", l),
+                (Req::Opt, K::Lazy(..)) => ("Lazy value", l),
+                (Req::Opt, _) => ("Option", format!("Option<{}>", l)),
+            };
+            (fam, l, c)
+        }
+        Variant::Elem | Variant::MapVal => {
+            // class of the element / value, through an outer Lazy if there is one
+            let (outer_lazy, coll) = match &f.k { K::Lazy(inner) => (true, &**inner), other => (false, other) };
+            let inner = match coll { K::Many(i, _) | K::Map(i) => &**i, other => other };
+            let (_, c) = value_label(inner);
+            let (l, _) = value_label(&f.k);
+            let fam = match (variant, outer_lazy, c) {
+                (Variant::Elem, true, _) => "Lazy<Vec> element",
+                (Variant::MapVal, _, Class::Lazy) => "HashMap<Name,Lazy> value",
+                (Variant::Elem, _, _) => if opt_vec { "Option<Vec> element" } else { "Vec element" },
+                (_, _, _) => "HashMap value",
+            };
+            (fam, if opt_vec { format!("Option<{}>", l) } else { l }, if outer_lazy { Class::Lazy } else { c })
+        }
+    }
+}
+
+#[derive(Clone, Copy, Debug)]
+pub struct Job { pub target: usize, pub field: usize, pub variant: Variant, pub kind: Dangling }
+
+fn jobs(ts: &[Target]) -> Vec<Job> {
+    let mut v = Vec::new();
+    for (ti, t) in ts.iter().enumerate() {
+        let m = model(t.model);
+        for (fi, f) in m.fields.iter().enumerate() {
+            for kind in DANGLING {
+                v.push(Job { target: ti, field: fi, variant: Variant::Field, kind });
+                if f.req == Req::Req { continue; }
+                let coll = match &f.k { K::Lazy(inner) => &**inner, other => other };
+                match coll {
+                    K::Many(..) => v.push(Job { target: ti, field: fi, variant: Variant::Elem, kind }),
+                    K::Map(..) => v.push(Job { target: ti, field: fi, variant: Variant::MapVal, kind }),
+                    _ => {}
+                }
+            }
+        }
+    }
+    v
+}
+
+/// canonical text of a written-back value: dictionary order irrelevant, null entries == absent entries, 3 == 3.0;
+/// `drop_null_elems`: a null array element counts as an absent element (top level only)
+fn canon(p: &Primitive, drop_null_elems: bool) -> String {
+    match p {
+        Primitive::Null => "null".into(),
+        Primitive::Integer(i) => format!("{}", *i as f64),
+        Primitive::Number(f) => format!("{}", *f as f64),
+        Primitive::Array(a) => {
+            let v: Vec<String> = a.iter().filter(|x| !(drop_null_elems && matches!(x, Primitive::Null))).map(|x| canon(x, false)).collect();
+            format!("[{}]", v.join(" "))
+        }
+        Primitive::Dictionary(d) => {
+            let mut v: Vec<String> = d.iter().filter(|(_, x)| !matches!(x, Primitive::Null)).map(|(k, x)| format!("/{} {}", k.as_str(), canon(x, false))).collect();
+            v.sort();
+            format!("<<{}>>", v.join(" "))
+        }
+        Primitive::Stream(s) => format!("stream{}", canon(&Primitive::Dictionary(s.info.clone()), false)),
+        other => format!("{}", other),
+    }
+}
+/// the value of `key` in a written-back dictionary: None = absent / null / empty collection
+fn entry(d: &Dictionary, key: &str) -> Option<String> {
+    match d.get(key) {
+        None | Some(Primitive::Null) => None,
+        Some(Primitive::Array(a)) if a.iter().all(|x| matches!(x, Primitive::Null)) => None,
+        Some(Primitive::Dictionary(m)) if m.iter().all(|(_, x)| matches!(x, Primitive::Null)) => None,
+        Some(p) => Some(canon(p, true)),
+    }
+}
+
+pub struct Built {
+    pub dangling_doc: Vec<u8>,
+    pub control_doc: Vec<u8>,
+    /// optional entry as the entry's value: the container with a VALID value for the entry (establishes that the generated container is sound
+    /// independently of how the library treats the absent entry)
+    pub valid_doc: Option<Vec<u8>>,
+    pub plan: doc::Plan,
+    pub container_text: String,
+    pub labels: Vec<&'static str>,
+    pub via_get: bool,
+    pub tape: Vec<u32>,
+}
+
+const DNG_KEY: &str = "Dng";
+
+/// generate the container, plant the reference, write the test document and its control twin
+/// `doctored` (self-test only): the "dangling" document gets a VALID value for the entry instead of the dangling reference — the library then
+/// behaves like a stub that does not treat the entry as absent / does not report the required entry, and the oracle must say so
+pub fn build_case(t: &Target, f: &Field, job: &Job, mut src: Src, sweep: u64, doctored: bool) -> Result<Built, String> {
+    let minimal = sweep % 2 == 0;
+    let m = model(t.model);
+    if minimal {
+        // presence bits of the optional entries are the first draws of the top-level model: all "absent"
+        let mut prefix = vec![0u32; m.n_optional()];
+        prefix.extend_from_slice(&src.tape);
+        src.tape = prefix;
+    }
+    let mut st = new_store();
+    let (top, before, after, valid_value) = {
+        let mut g = Gen::new(&mut src, &mut st);
+        let top = g.top(&t.k);
+        // a valid value for the entry under test: the "valid twin" shows that the container is fine when the entry is present and sound
+        let valid_value = if job.variant == Variant::Field && f.req != Req::Req { Some(g.value(&f.k)) } else { None };
+        let coll = match &f.k { K::Lazy(inner) => (**inner).clone(), other => other.clone() };
+        let (mut before, mut after) = (Vec::new(), Vec::new());
+        if job.variant != Variant::Field {
+            let inner = match &coll { K::Many(i, _) | K::Map(i) => (**i).clone(), _ => return Err("variant needs a collection".into()) };
+            let nb = [1usize, 2, 0][(sweep % 3) as usize]; // valid neighbours: fixed per sweep so that every run covers 1, 2 (and 0 from the third sweep on)
+            let pos = g.src.draw(nb as u32 + 1) as usize;
+            for i in 0..nb { let v = g.value(&inner); if i < pos { before.push(v) } else { after.push(v) } }
+        }
+        (top, before, after, valid_value)
+    };
+    let via_get = src.draw(2) == 1;
+    let store_objs = doc::export_store(&st)?;
+    let plan = doc::plan(store_objs.len() as u32, job.kind, &mut src);
+    let dref = Primitive::Reference(PlainRef { id: plan.dangling as u64, gen: 0 });
+    let (planted, control): (Primitive, Option<Primitive>) = match job.variant {
+        Variant::Field => (dref, None),
+        Variant::Elem => {
+            let mut a = before.clone(); a.push(dref); a.extend(after.iter().cloned());
+            let mut c = before.clone(); c.extend(after.iter().cloned());
+            (Primitive::Array(a), Some(Primitive::Array(c)))
+        }
+        Variant::MapVal => {
+            let keys = ["Aa", "Zz"];
+            let mut d = Dictionary::new();
+            let mut c = Dictionary::new();
+            for (i, v) in before.iter().chain(after.iter()).enumerate() { d.insert(keys[i], v.clone()); c.insert(keys[i], v.clone()); }
+            d.insert(DNG_KEY, dref);
+            (Primitive::Dictionary(d), Some(Primitive::Dictionary(c)))
+        }
+    };
+    // required entries: the control keeps the generated (valid) value; optional ones: the control lacks the entry (element, map entry)
+    let res = st.resolver();
+    let mk = |value: Option<Primitive>| -> Result<Obj, String> {
+        let mut p = top.clone();
+        {
+            let d = match &mut p { Primitive::Dictionary(d) => d, Primitive::Stream(s) => &mut s.info, _ => return Err("container is neither dictionary nor stream".into()) };
+            match value { Some(v) => { d.insert(f.key, v); } None => { d.remove(f.key); } }
+        }
+        doc::conv(&p, &res)
+    };
+    let c_dangling = if doctored {
+        match (&valid_value, f.req == Req::Req) { (Some(v), _) => mk(Some(v.clone()))?, (None, true) => doc::conv(&top, &res)?, _ => return Err("doctored case needs the entry-value variant".into()) }
+    } else { mk(Some(planted))? };
+    let c_control = if f.req == Req::Req {
+        let d = match &top { Primitive::Dictionary(d) => d, Primitive::Stream(s) => &s.info, _ => return Err("container is neither dictionary nor stream".into()) };
+        if d.get(f.key).is_none() { return Err(format!("generator left out the required entry /{}", f.key)); }
+        doc::conv(&top, &res)?
+    } else { mk(control)? };
+    let c_valid = match valid_value { Some(v) => Some(mk(Some(v))?), None => None };
+    let mut labels = src.labels.clone();
+    labels.extend(plan.labels.iter().cloned());
+    if minimal { labels.push("minimal-container"); }
+    labels.sort(); labels.dedup();
+    let tape = src.tape[..src.used().min(src.tape.len())].to_vec();
+    Ok(Built {
+        dangling_doc: doc::write(&plan, &store_objs, &c_dangling),
+        control_doc: doc::write(&plan, &store_objs, &c_control),
+        valid_doc: c_valid.map(|c| doc::write(&plan, &store_objs, &c)),
+        container_text: show(&mkpdf::obj_bytes(&c_dangling)),
+        plan, labels, via_get, tape,
+    })
+}
+
+pub struct Finding { pub sig: String, pub what: String, pub cfg: String }
+
+#[derive(Default)]
+pub struct Eval {
+    pub findings: Vec<Finding>,
+    pub inconclusive: Vec<String>,
+    pub counts: Vec<String>,
+    pub hash: u64,
+    pub built: Option<Built>,
+    /// "Model.Key [Rust container type]"
+    pub at: String,
+}
+
+fn el(e: &PdfError) -> String { let s = format!("{}", e); s.chars().take(300).collect() }
+/// error wrapper chain as variant names, e.g. ["FromPrimitive", "Shared", "NullRef"] (runs of `Try` collapsed)
+pub fn chain_vec(e: &PdfError) -> Vec<String> {
+    let mut v: Vec<String> = Vec::new();
+    let mut cur = e;
+    loop {
+        let (name, next): (&str, Option<&PdfError>) = match cur {
+            PdfError::Try { source, .. } => ("Try", Some(&**source)),
+            PdfError::Shared { source } => ("Shared", Some(&**source)),
+            PdfError::FromPrimitive { source, .. } => ("FromPrimitive", Some(&**source)),
+            _ => ("", None),
+        };
+        match next {
+            Some(n) => { if !(name == "Try" && v.last().map(|x| x.as_str()) == Some("Try")) { v.push(name.to_string()); } cur = n; }
+            None => break,
+        }
+    }
+    v.push(root_kind(cur));
+    v
+}
+pub fn chain(e: &PdfError) -> String { chain_vec(e).join(">") }
+/// the part of the chain that belongs to the planted entry: what follows the first `FromPrimitive` (the container's own
+/// field wrapper; everything above it depends on how the container was reached), or — for readers that do not wrap — the
+/// whole chain without the `Shared` that `Resolve::get` adds
+pub fn entry_chain(e: &PdfError, via_get: bool) -> String {
+    let v = chain_vec(e);
+    match v.iter().position(|x| x == "FromPrimitive") {
+        Some(i) => v[i + 1..].join(">"),
+        None => { let skip = if via_get && v.first().map(|x| x.as_str()) == Some("Shared") { 1 } else { 0 }; v[skip..].join(">") }
+    }
+}
+
+fn read_doc(bytes: &[u8], cfg: Cfg, reader: &str, container: u32, via_get: bool, lazy_key: Option<&str>) -> Result<ReadOut, String> {
+    let r = PlainRef { id: container as u64, gen: 0 };
+    match guard(|| with_file!(bytes.to_vec(), cfg, b"", |f| match f {
+        Ok(file) => { let res = file.resolver(); Ok(read_target(reader, &res, r, via_get, lazy_key)) }
+        Err(e) => Err(format!("load error: {}", el(&e))),
+    })) {
+        Ok(x) => x,
+        Err(p) => Err(format!("load panic: {}", p.describe())),
+    }
+}
+
+fn lazy_text(l: &LazyOut) -> String {
+    l.iter().map(|(k, r)| match r { Ok(n) => format!("{}:ok({})", k, n), Err(e) => format!("{}:err({})", k, chain(e)) }).collect::<Vec<_>>().join(", ")
+}
+
+/// one configuration's verdict on one document: outcome class (with the entry's error chain where there is one) and description
+struct Raw { cfg: Cfg, outcome: String, what: String }
+
+/// "strict" / "tolerant" / "any-mode" (+ cache note when the two cache settings disagree)
+fn mode_class(cfgs: &[Cfg]) -> String {
+    let has = |c: bool, t: bool| cfgs.iter().any(|x| x.cached == c && x.tolerant == t);
+    let strict = has(false, false) || has(true, false);
+    let tolerant = has(false, true) || has(true, true);
+    let mut m = match (strict, tolerant) { (true, true) => "any-mode", (true, false) => "strict", _ => "tolerant" }.to_string();
+    let sym = (!strict || (has(false, false) && has(true, false))) && (!tolerant || (has(false, true) && has(true, true)));
+    if !sym { m.push_str(if cfgs.iter().all(|x| x.cached) { "/cached-only" } else if cfgs.iter().all(|x| !x.cached) { "/uncached-only" } else { "/cache-dependent" }); }
+    m
+}
+
+/// build the documents for (job, tape) and judge all four configurations
+pub fn evaluate(ts: &[Target], job: &Job, src: Src, sweep: u64) -> Eval { evaluate_inner(ts, job, src, sweep, false) }
+
+fn evaluate_inner(ts: &[Target], job: &Job, src: Src, sweep: u64, doctored: bool) -> Eval {
+    let t = &ts[job.target];
+    let f = &model(t.model).fields[job.field];
+    let mut ev = Eval::default();
+    let b = match build_case(t, f, job, src, sweep, doctored) { Ok(b) => b, Err(e) => { ev.inconclusive.push(format!("{}.{}: cannot build the case: {}", t.name, f.key, e)); return ev; } };
+    ev.hash = fnv(&b.dangling_doc);
+    // generator conformance: the independent reference reader must find the file to be what the case claims
+    let mut docs: Vec<(&Vec<u8>, bool)> = vec![(&b.dangling_doc, !doctored), (&b.control_doc, false)];
+    if let Some(v) = &b.valid_doc { docs.push((v, false)); }
+    for (bytes, expect_ref) in docs {
+        match doc::refcheck(bytes, &b.plan, expect_ref) {
+            Ok(true) => ev.counts.push("refcheck:verified-by-reference-reader".into()),
+            Ok(false) => ev.counts.push("refcheck:flavour-not-covered".into()),
+            Err(e) => { ev.inconclusive.push(format!("{}.{}: generated file fails the reference check: {}", t.name, f.key, e)); return ev; }
+        }
+    }
+    let (family, detail, class) = container_of(t.model, f, job.variant);
+    let required = f.req == Req::Req;
+    let variant = match (class, required, job.variant) {
+        (Class::Lazy, _, _) => "lazy",
+        (_, true, _) => "required",
+        (_, _, Variant::Field) => "optional",
+        (_, _, Variant::Elem) => "array-element",
+        (_, _, Variant::MapVal) => "map-value",
+    };
+    let lazy_key = if class == Class::Lazy { Some(f.key) } else { None };
+    let at = format!("{}.{}", t.name, f.key);
+    ev.at = format!("{} [{}]", at, detail);
+    let what_kind = match job.kind { Dangling::Free => "a free object", Dangling::Gap => "an object number inside a gap of the table", Dangling::AtSize => "object number == /Size", Dangling::BeyondSize => "an object number > /Size" };
+    let mut raws: Vec<Raw> = Vec::new();
+    for cfg in CFGS {
+        let mode = if cfg.tolerant { "tolerant" } else { "strict" };
+        ev.counts.push(format!("read:{}", cfg.name()));
+        // ---- valid twin (entry present with a sound value): tells whether the generated container is valid at all
+        let mut valid_ok = false;
+        if let Some(v) = &b.valid_doc {
+            match read_doc(v, cfg, t.reader, b.plan.container, b.via_get, None) {
+                Ok(ReadOut::Ok { .. }) => valid_ok = true,
+                Ok(ReadOut::Err(e)) => { ev.inconclusive.push(format!("{} [{}]: the valid twin (entry present with a generated valid value) is rejected by the reader: {}", at, cfg.name(), el(&e))); continue; }
+                Ok(ReadOut::Panic(p)) => { ev.inconclusive.push(format!("{} [{}]: the valid twin makes the reader panic: {}", at, cfg.name(), p.describe())); continue; }
+                Err(w) => { ev.inconclusive.push(format!("{} [{}]: valid twin: {}", at, cfg.name(), w)); continue; }
+            }
+        }
+        // ---- control twin: optional = the entry (element, map entry) is not there; required = valid value.
+        // Where a valid twin exists, a rejected control twin means that the library does not accept the entry's absence (None below).
+        let ctl: Option<(Dictionary, Option<LazyOut>)> = match read_doc(&b.control_doc, cfg, t.reader, b.plan.container, b.via_get, lazy_key) {
+            Ok(ReadOut::Ok { dict: Ok(d), lazy }) => Some((d, lazy)),
+            Ok(ReadOut::Ok { dict: Err(w), .. }) => { ev.inconclusive.push(format!("{} [{}]: control twin: {}", at, cfg.name(), w)); continue; }
+            Ok(ReadOut::Err(_)) | Ok(ReadOut::Panic(_)) if valid_ok => None,
+            Ok(ReadOut::Err(e)) => { ev.inconclusive.push(format!("{} [{}]: the control twin (no dangling reference) is rejected by the reader: {}", at, cfg.name(), el(&e))); continue; }
+            Ok(ReadOut::Panic(p)) => { ev.inconclusive.push(format!("{} [{}]: the control twin makes the reader panic: {}", at, cfg.name(), p.describe())); continue; }
+            Err(w) => { ev.inconclusive.push(format!("{} [{}]: control twin: {}", at, cfg.name(), w)); continue; }
+        };
+        let out = match read_doc(&b.dangling_doc, cfg, t.reader, b.plan.container, b.via_get, lazy_key) {
+            Ok(o) => o,
+            Err(w) => { ev.inconclusive.push(format!("{} [{}]: {}", at, cfg.name(), w)); continue; }
+        };
+        let mut fail = |outcome: String, what: String| raws.push(Raw { cfg, outcome, what });
+        match out {
+            ReadOut::Panic(p) => fail(format!("PANIC {}", p.signature()), format!("reading {} whose /{} refers to {} panics: {}", t.name, f.key, what_kind, p.describe())),
+            ReadOut::Err(e) if required => {
+                let fields = error_fields(&e);
+                let named = fields.iter().any(|x| x == f.key || rust_names(f.key).contains(&x.as_str()));
+                if named { ev.counts.push(format!("ok:required-error-names-entry:{}", mode)); }
+                else if class == Class::Deferred { ev.counts.push("deferred:required-error".into()); }
+                else {
+                    fail("error-does-not-name-entry".into(), format!("required entry {} ({}) refers to {}: the error does not name the entry (fields named in the chain: {:?}; chain {}): {}",
+                        at, detail, what_kind, fields, chain(&e), el(&e)));
+                }
+            }
+            ReadOut::Err(e) => {
+                // the wrapper chain is part of the signature where it IS the root cause (which errors the Option reader fails to recognise)
+                let o = if family.starts_with("Option") { format!("error-instead-of-value:{}", entry_chain(&e, b.via_get)) } else { "error-instead-of-value".to_string() };
+                fail(o, format!("{} entry {} ({}) refers to {}: reading the container fails instead of treating the entry as absent (chain {}): {}",
+                    variant, at, detail, what_kind, chain(&e), el(&e)));
+            }
+            ReadOut::Ok { dict, lazy } => {
+                if required {
+                    if class == Class::Deferred { ev.counts.push("deferred:required-reference-kept-unresolved".into()); }
+                    else {
+                        fail("value-instead-of-error".into(), format!("required entry {} ({}) refers to {} but reading the container succeeds (entry reads as {:?})",
+                            at, detail, what_kind, dict.as_ref().ok().and_then(|d| d.get(f.key).map(|p| canon(p, false)))));
+                    }
+                    continue;
+                }
+                match class {
+                    _ if ctl.is_none() => fail("differs-from-absent".into(), format!("{} entry {} ({}) refers to {}: the read succeeds, but it FAILS when the entry is simply not there (and succeeds with a valid value): the entry is not treated as absent",
+                        variant, at, detail, what_kind)),
+                    Class::Deferred => ev.counts.push(format!("deferred:optional-reference-kept-unresolved:{}", mode)),
+                    Class::Lazy => {
+                        let (Some(l), Some(lc)) = (lazy, ctl.and_then(|c| c.1)) else { ev.inconclusive.push(format!("{}: no lazy probe for this entry", at)); continue; };
+                        if lc.iter().any(|(_, r)| r.is_err()) { ev.inconclusive.push(format!("{}: control twin fails to load lazily: {}", at, lazy_text(&lc))); continue; }
+                        // absent == the entry is not there, or it loads to what the control twin loads to
+                        let bad = l.iter().find(|(k, r)| match r {
+                            Err(_) => true,
+                            Ok(n) => match lc.iter().find(|(kc, _)| kc == k) { Some((_, Ok(nc))) => n != nc, Some((_, Err(_))) => false, None => k != DNG_KEY },
+                        });
+                        match bad {
+                            Some((k, r)) => {
+                                let outcome = match r { Err(_) => "error-on-load".to_string(), Ok(_) => "wrong-value".to_string() };
+                                fail(outcome, format!("lazily read entry {} ({}) refers to {}: load() gives [{}], the twin without the reference gives [{}] (first difference at {})",
+                                    at, detail, what_kind, lazy_text(&l), lazy_text(&lc), k));
+                            }
+                            None => ev.counts.push(format!("ok:lazy-absent:{}", mode)),
+                        }
+                    }
+                    Class::Resolved => {
+                        let d = match dict { Ok(d) => d, Err(w) => { ev.inconclusive.push(format!("{} [{}]: {}", at, cfg.name(), w)); continue; } };
+                        let (got, want) = (entry(&d, f.key), entry(&ctl.as_ref().unwrap().0, f.key));
+                        if got != want {
+                            fail("wrong-value".into(), format!("{} entry {} ({}) refers to {}: the entry reads as {} but as {} when the {} is simply not there",
+                                variant, at, detail, what_kind, got.unwrap_or("<absent>".into()), want.unwrap_or("<absent>".into()),
+                                match job.variant { Variant::Field => "entry", Variant::Elem => "element", Variant::MapVal => "map entry" }));
+                        } else { ev.counts.push(format!("ok:absent:{}:{}", variant, mode)); }
+                    }
+                }
+            }
+        }
+    }
+    // a case with a configuration that could not be judged is inconclusive as a whole (its mode class would be wrong)
+    if !ev.inconclusive.is_empty() && !raws.is_empty() { ev.counts.push("findings-dropped:case-partly-inconclusive".into()); raws.clear(); }
+    // one finding per distinct outcome; the configurations it occurs in become the mode class of the signature
+    let mut outcomes: Vec<String> = raws.iter().map(|r| r.outcome.clone()).collect();
+    outcomes.sort(); outcomes.dedup();
+    for o in outcomes {
+        let rs: Vec<&Raw> = raws.iter().filter(|r| r.outcome == o).collect();
+        let cfgs: Vec<Cfg> = rs.iter().map(|r| r.cfg).collect();
+        let sig = match o.strip_prefix("PANIC ") {
+            Some(p) => format!("C18|{}", p),
+            // for entries read through Option the dangling kind matters (three different root errors); for array elements,
+            // map values and lazy entries the outcome is the same for every kind, so it is left out of the signature
+            None => if variant == "optional" || variant == "required" { format!("C18|{}|{}|{}|{}|{}", variant, family, job.kind.class(), mode_class(&cfgs), o) }
+                    else { format!("C18|{}|{}|{}|{}", variant, family, mode_class(&cfgs), o) },
+        };
+        ev.findings.push(Finding { sig, what: format!("{} [in {}]", rs[0].what, cfgs.iter().map(|c| c.name()).collect::<Vec<_>>().join(", ")), cfg: rs[0].cfg.name() });
+    }
+    ev.built = Some(b);
+    ev
+}
+
+static FAILING: once_cell::sync::Lazy<Mutex<BTreeMap<String, BTreeMap<String, u64>>>> = once_cell::sync::Lazy::new(|| Mutex::new(BTreeMap::new()));
+pub fn note_failing(sig: &str, at: &str) { *FAILING.lock().unwrap().entry(sig.to_string()).or_default().entry(at.to_string()).or_insert(0) += 1; }
+
+fn witness(ts: &[Target], job: &Job, b: &Built, fd: &Finding, sweep: u64) -> Value {
+    let t = &ts[job.target];
+    let f = &model(t.model).fields[job.field];
+    json!({"entry": format!("{}.{}", t.name, f.key), "reader": t.reader, "read_via": if b.via_get { "resolver.get::<T>" } else { "T::from_primitive(resolve(r))" },
+        "variant": format!("{:?}", job.variant), "dangling_kind": job.kind.name(), "dangling_object": b.plan.dangling, "size": b.plan.size,
+        "container_object": b.plan.container, "container": b.container_text, "first_cfg": fd.cfg, "labels": b.labels, "sweep": sweep, "rust_type": container_of(t.model, f, job.variant).1,
+        "tape": b.tape, "file_hex": if b.dangling_doc.len() <= 4000 { hex(&b.dangling_doc) } else { format!("({} bytes; rebuild from tape)", b.dangling_doc.len()) }})
+}
+
+fn case(run: &Run, ts: &[Target], job: &Job, rng: Rng, sweep: u64, sample: bool) {
+    let ev = evaluate(ts, job, Src::fresh(rng), sweep);
+    run.eval();
+    run.count(&format!("kind:{}", job.kind.name()));
+    run.count(&format!("variant:{:?}", job.variant));
+    for c in &ev.counts { run.count(c); }
+    for w in &ev.inconclusive { run.inconclusive(w.clone()); }
+    let Some(b) = ev.built.as_ref() else { return };
+    for l in &b.labels { run.count(&format!("label:{}", l)); }
+    if ev.inconclusive.len() < 4 { run.nontrivial(ev.hash); }
+    if sample { run.sample(json!({"entry": ev.at, "variant": format!("{:?}", job.variant), "kind": job.kind.name(), "container": b.container_text, "dangling_object": b.plan.dangling, "size": b.plan.size, "labels": b.labels})); }
+    for fd in &ev.findings {
+        note_failing(&fd.sig, &format!("{} {}", ev.at, job.kind.name()));
+        if run.has_violation(&fd.sig) { run.violation(&fd.sig, &fd.what, Value::Null); continue; }
+        // first witness of this signature: look for a smaller container that fails the same way
+        let sig = fd.sig.clone();
+        let mut fails = |cand: &[u32]| evaluate(ts, job, Src::replay(cand), sweep).findings.iter().any(|g| g.sig == sig);
+        let small = shrink(&b.tape, &mut fails, 24);
+        let e2 = evaluate(ts, job, Src::replay(&small), sweep);
+        match (e2.built.as_ref(), e2.findings.iter().find(|g| g.sig == fd.sig)) {
+            (Some(b2), Some(g)) => run.violation(&fd.sig, &g.what, witness(ts, job, b2, g, sweep)),
+            _ => run.violation(&fd.sig, &fd.what, witness(ts, job, b, fd, sweep)),
+        }
+    }
+}
+
+/// Self-test at setup: (a) pure helpers on hand-made values, (b) the whole pipeline against a doctored case in which the entry
+/// under test holds a valid value where the dangling reference should be: the oracle must then report "not absent" for an optional
+/// entry and "no error" for a required one. A monitor that cannot fire any more is reported as inconclusive.
+fn self_test(run: &Run, ts: &[Target], js: &[Job]) {
+    let mut problems: Vec<String> = Vec::new();
+    let mut d = Dictionary::new();
+    d.insert("A", Primitive::Array(vec![Primitive::Null]));
+    d.insert("B", Primitive::Integer(5));
+    d.insert("C", Primitive::Array(vec![Primitive::Integer(1), Primitive::Null, Primitive::Number(2.0)]));
+    if entry(&d, "A").is_some() || entry(&d, "Zz").is_some() { problems.push("entry(): an all-null array / a missing key must count as absent".into()); }
+    if entry(&d, "B").is_none() { problems.push("entry(): a present value must not count as absent".into()); }
+    if entry(&d, "C") != Some("[1 2]".to_string()) { problems.push(format!("entry(): canonical form of [1 null 2.0] is {:?}", entry(&d, "C"))); }
+    let e = PdfError::Shared { source: std::sync::Arc::new(PdfError::FromPrimitive { typ: "T", field: "f", source: Box::new(PdfError::Shared { source: std::sync::Arc::new(PdfError::NullRef { obj_nr: 9 }) }) }) };
+    if entry_chain(&e, true) != "Shared>NullRef" || chain(&e) != "Shared>FromPrimitive>Shared>NullRef" { problems.push(format!("chain(): {} / {}", chain(&e), entry_chain(&e, true))); }
+    if error_fields(&e) != vec!["f".to_string()] { problems.push("error_fields(): field not found through Shared".into()); }
+    let find = |tname: &str, key: &str| js.iter().find(|j| ts[j.target].name == tname && model(ts[j.target].model).fields[j.field].key == key && j.variant == Variant::Field && j.kind == Dangling::Gap);
+    for (tname, key, expect) in [("PageLabel", "St", "wrong-value"), ("FontDescriptor", "FontFile2", "wrong-value"), ("Catalog", "Pages", "value-instead-of-error"), ("FontDescriptor", "Flags", "value-instead-of-error")] {
+        let Some(job) = find(tname, key) else { problems.push(format!("no job for {}.{}", tname, key)); continue };
+        for sweep in 0..2 {
+            let ev = evaluate_inner(ts, job, Src::fresh(Rng::derive(run.seed, 1899, sweep)), sweep, true);
+            if !ev.findings.iter().any(|f| f.sig.ends_with(expect)) {
+                problems.push(format!("doctored {}.{} (sweep {}): expected a {} finding, got {:?} / inconclusive {:?}", tname, key, sweep, expect, ev.findings.iter().map(|f| f.sig.clone()).collect::<Vec<_>>(), ev.inconclusive));
+            }
+        }
+    }
+    run.extra("self_test", json!({"ok": problems.is_empty(), "problems": problems}));
+    for p in problems { run.inconclusive(format!("self-test: {}", p)); run.add("inconclusive", 1_000_000); }
+}
+
+pub fn run(run: &Run) {
+    run.rule("tier 1: cases = (typed model of the C15 schema table, declared entry, variant in {entry value, array element, map value}, dangling kind in \
+        {explicit free entry [optionally deleted by an incremental update], hole between xref subsections, == /Size, > /Size}) — ALL combinations are enumerated in every \
+        sweep (sweeps alternate minimal containers = required entries only, and rich ones; 1 / 2 / 0 valid neighbours for element and map variants); per case the container is \
+        generated by the C15 generator, exported with everything it references into a real file (classic table or cross-reference stream), one reference to the dangling number is \
+        planted, and the container is read with its typed reader (resolver.get::<T> or T::from_primitive) in all four configurations. Twins read the same way: VALID twin (entry \
+        present with a generated valid value: shows the container is sound), CONTROL twin (optional: entry / element / map entry simply not there; required: valid value). \
+        optional: the read succeeds and the entry's written-back value equals the control twin's (and the control twin is accepted); required: error whose chain names the entry; \
+        never a panic. Files in classic single-section flavour are first read back by the independent reference reader (the planted reference must be the only undefined one, \
+        the dangling number free / in a hole / >= /Size as planned). tier 2: document-level reads (load, get_page, boxes, contents, annotations, resources, fonts, xobjects, forms, \
+        outlines, info) on the hand-written rich document with the same plants; transcript must equal that of the twin without the entry. \
+        distinct_nontrivial = distinct test files (by content hash)");
+    run.assume("entries whose Rust type stores a reference without resolving it (Ref<T>, Primitive) cannot show 'absent' or 'error' at read time: for them only 'the read succeeds / no panic' is judged (counted as deferred:*); the statement's quantifier lists direct, MaybeRef, RcRef, Lazy and Vec element");
+    run.assume("Lazy<T> entries: 'treated as absent' = load() succeeds with the value the twin without the reference loads to (an empty list for /Annots), or the map entry is not there; reported under the variant label 'lazy'");
+    run.assume("left out of the domain: /Type and /Subtype tag entries, the stream pseudo-entries /Length /Filter /DecodeParms, the Trailer and XRefInfo models as schema targets (their entries must be direct per ISO 32000-1 7.5.5/7.5.8; /Root /Info /ID are covered at document level), /Encrypt, references planted inside composite values of hand-written readers (colour space arrays, destinations, name/number tree nodes)");
+    run.assume("a null array element counts as an absent element; an empty array / empty map counts as an absent entry; a defaulted entry reads as its default when absent");
+    run.assume("a required entry 'names the entry' when FromPrimitive.field / MissingEntry.field in the error chain is the Rust field name behind the key (table rust_names) or the key itself");
+    run.assume("signatures: C18|<variant>|<reader family that has to cope>|<free|gap|beyond-size>|<strict|tolerant|any-mode>|<outcome>[:<error chain below the entry, Option family only>]; the Rust container type and Model.Key are in the witness and in failing_entries_by_signature; tier 2: C18|doc-level|<family>|<mode>|<step>:<outcome>");
+    let ts = targets();
+    let js = jobs(&ts);
+    self_test(run, &ts, &js);
+    run.extra("tier1_combinations_per_sweep", json!(js.len()));
+    let n = run.n(2600, 40_000);
+    let sweeps = ((n as usize + js.len() - 1) / js.len()).max(2) as u64;
+    run.extra("tier1_sweeps", json!(sweeps));
+    let total = sweeps * js.len() as u64;
+    par_for(total, |i| {
+        let job = &js[(i % js.len() as u64) as usize];
+        let sweep = i / js.len() as u64;
+        case(run, &ts, job, Rng::derive(run.seed, 18, i), sweep, i % 97 == 0 && i < 1200);
+    });
+    run.exhaustive("tier 1: every (model, entry, variant, dangling kind) combination of the schema table", true);
+    super::c18_level::run(run);
+    let failing = FAILING.lock().unwrap().clone();
+    run.extra("failing_entries_by_signature", json!(failing));
+    run.extra("targets", json!(ts.iter().map(|t| t.name).collect::<Vec<_>>()));
+}
